@@ -141,12 +141,13 @@ func (o *c14Obs) observe(w *gWorld, ev *gEvent) {
 
 func TestVerifC14(t *testing.T) {
 	r := verifkit.Start(t, "C14", "group")
+	gSeedSalt = r.Seed
 	defer r.Finish("real GroupCoordinator over the real InMemoryStore on synctest virtual time; PRNG op lists (join new/existing/with a forgotten id, sync, heartbeat, leave, time advance incl. session and rebalance-deadline expiry, settle rounds), <=4 members. Every JoinGroup reply: named leader is in the stored member set; a member list appears only in (and always in) a code-0 reply to the leader and equals the stored member set with each member's latest subscription; code 0 with generation g => g is the stored generation and every stored member's latest join reply carried g (observer bookkeeping of what each member id was told). After a code-0 join in g and a successful sync of its leader, every sync(g) of a stored member while the stored generation is still g must return 0. non-trivial = case where a >=2-member generation completed after at least one join had been answered REBALANCE_IN_PROGRESS",
 		"'has joined the current generation' = the member's latest JoinGroup reply (any code) carried that generation", "failover is not part of this property's histories (C15)")
 	p := gDefaultProfile
 	p.PFresh = 0.12
 	p.WLeave = 6
-	n := r.N(1200, 40000)
+	n := r.N(800, 40000)
 	seen := func(w *gWorld, ev *gEvent) { r.Seen("group_states", w.stateSig(ev.After)) }
 	mk := func() *c14Obs {
 		return &c14Obs{r: r, completed: map[string]bool{}, leaderOf: map[string]string{}, leaderSynced: map[string]bool{}, sawWait: map[string]bool{}}
